@@ -6,7 +6,7 @@ shared accesses, final place of every signal, dispatch order, locks, levels.  Th
 evaluated DIRECTLY on the implementation's outcome (duplicates, losses, per-thread order, routing).
 A signal lost because a nested level was closed while the submission was in flight is finding F10
 (key `signal-lost-at-level-close`, known); every other loss/duplication/reordering/misrouting is a violation."""
-import json, os, glob, time, itertools
+import subprocess, json, os, glob, time, itertools
 import lib
 import conc_impl
 
@@ -403,8 +403,72 @@ def run_batch(chk, pool, cases, origin):
             chk.sample(dict(case=c, impl_places=dict(pend=r["pend"], disp=r["disp"], drop=r["drop"]), note=c.get("note", origin)))
 
 
+_FAULT_SCRIPT = r"""
+import sys, threading, json
+sys.path.insert(0, sys.argv[1])
+from dataclasses import dataclass
+from simpleline.event_loop.main_loop import MainLoop
+from simpleline.event_loop import AbstractSignal
+class Ping(AbstractSignal):
+    pass
+@dataclass
+class Unhashable:            # defines __eq__, hence no __hash__: `x in set` raises TypeError
+    name: str
+loop = MainLoop()
+got = []
+loop.register_signal_handler(Ping, lambda s, d: got.append(s.priority))
+loop.register_signal_source("S")
+res = {}
+def bad():
+    try:
+        loop.enqueue_signal(Ping(Unhashable("u"), 1)); res["bad"] = "accepted"
+    except TypeError:
+        res["bad"] = "TypeError"
+    except Exception as e:      # noqa
+        res["bad"] = type(e).__name__
+t = threading.Thread(target=bad, daemon=True); t.start(); t.join(10)
+def good():
+    for k in range(3):
+        loop.enqueue_signal(Ping("S", 10 + k))
+    res["good"] = "submitted"
+t2 = threading.Thread(target=good, daemon=True); t2.start(); t2.join(10)
+res["good_alive"] = t2.is_alive()
+if not t2.is_alive():
+    def drain():
+        loop.process_signals()
+        while not loop._active_queue.empty():
+            loop.process_signals()
+        res["drained"] = True
+    t3 = threading.Thread(target=drain, daemon=True); t3.start(); t3.join(10)
+res["dispatched"] = got
+print(json.dumps(res)); sys.stdout.flush()
+import os; os._exit(0)
+"""
+
+
+def check_fault_in_submission(chk):
+    """A submission that FAILS inside the critical section (a source object that cannot be looked up in a set: unhashable)
+    must leave every lock released: the submissions of other threads afterwards complete and are dispatched, in order
+    (C19_no_deadlock / C19_lock_holders: a thread that is not inside a submission holds no lock)."""
+    p = subprocess.run([lib.PY, "-c", _FAULT_SCRIPT, lib.REPO], capture_output=True, text=True, timeout=120, env=lib.ENV)
+    chk.count(); chk.hist("fault-in-submission")
+    try:
+        r = json.loads(p.stdout.strip().splitlines()[-1])
+    except Exception:      # noqa
+        r = dict(error=(p.stderr or p.stdout)[-300:])
+    ok = (not r.get("good_alive", True)) and r.get("good") == "submitted" and r.get("dispatched", [])[-3:] == [10, 11, 12]
+    if not ok:
+        report(chk, "lock-held-after-failed-submission",
+               "C19_no_deadlock: after a submission that failed inside enqueue_signal (unhashable source: %s) the submissions of "
+               "another thread do not complete / are not dispatched: %r" % (r.get("bad"), r),
+               dict(kind="fault-in-submission", result=r), found=True)
+    else:
+        chk.nontriv(dict(fault="unhashable-source", first=r.get("bad")))
+
+
 def run(chk, tier):
     lib.use_repo()
+    check_fault_in_submission(chk)
     pool = conc_impl.ImplPool()
     t0 = time.time()
     try:
@@ -463,6 +527,14 @@ def run(chk, tier):
 def replay(path):
     lib.use_repo()
     r = json.load(open(path))["replay"]
+    if r.get("kind") == "fault-in-submission":
+        p = subprocess.run([lib.PY, "-c", _FAULT_SCRIPT, lib.REPO], capture_output=True, text=True, timeout=120, env=lib.ENV)
+        print(p.stdout.strip())
+        try:
+            x = json.loads(p.stdout.strip().splitlines()[-1])
+        except Exception:      # noqa
+            return 1
+        return 0 if (not x.get("good_alive", True)) and x.get("dispatched", [])[-3:] == [10, 11, 12] else 1
     c = r["case"]
     pool = conc_impl.ImplPool()
     try:
